@@ -9,6 +9,8 @@ CONSTANTS
   AllowBad = TRUE
   AllowSplit = FALSE
   AllowRst = TRUE
+  AllowTClose = FALSE
+  AllowCRst = FALSE
   Timeout = 2
   MaxNow = 3
   DrainMode = "raw"
